@@ -234,6 +234,9 @@ class WritableVersion(dns.zone.WritableVersion):
         node = cast(Node, node)
         if self._is_origin(name):
             node.flags |= NodeFlags.ORIGIN
+        elif name in self.delegations:
+            # a copied-on-write node at a delegation point is still a delegation
+            node.flags |= NodeFlags.DELEGATION
         elif self.delegations.is_glue(name):
             node.flags |= NodeFlags.GLUE
         return (node, name)
